@@ -11,7 +11,8 @@ import (
 // RunCallbackCopy implements CALLBACK.owncopy: diff/fd evaluates the user's
 // function at perturbed copies of the point and says so ("protects against
 // the function modifying the input data"), so no call of a function-typed
-// parameter passes one of the enclosing function's own slice parameters: the
+// parameter passes a slice parameter that holds the caller's storage (a
+// parameter of an exported function, or of a helper that is handed one): the
 // user function may scribble on what it is given, the caller's x may not
 // change, and every later evaluation copies from x again.
 func RunCallbackCopy(conf core.Config, scope core.Scope) *core.Result {
@@ -25,6 +26,71 @@ func RunCallbackCopy(conf core.Config, scope core.Scope) *core.Result {
 	}
 	for _, pkg := range pkgs {
 		info := pkg.TypesInfo
+		// Which slice parameters hold the caller's storage? Those of exported
+		// functions, and those of unexported helpers that some call site
+		// feeds with such a parameter (fixpoint); a helper that only ever
+		// receives a local scratch slice (gradientSerial(…, xcopy)) owns it.
+		owned := map[types.Object]bool{}
+		type fn struct {
+			fd     *ast.FuncDecl
+			params []types.Object
+		}
+		fns := map[types.Object]*fn{}
+		for _, file := range pkg.Syntax {
+			for _, d := range file.Decls {
+				fd, ok := d.(*ast.FuncDecl)
+				if !ok || fd.Body == nil {
+					continue
+				}
+				f := &fn{fd: fd}
+				for _, fl := range fd.Type.Params.List {
+					for _, n := range fl.Names {
+						o := info.Defs[n]
+						f.params = append(f.params, o)
+						if o != nil && ast.IsExported(fd.Name.Name) {
+							if _, ok := o.Type().Underlying().(*types.Slice); ok {
+								owned[o] = true
+							}
+						}
+					}
+					if len(fl.Names) == 0 {
+						f.params = append(f.params, nil)
+					}
+				}
+				if o := info.Defs[fd.Name]; o != nil {
+					fns[o] = f
+				}
+			}
+		}
+		for changed := true; changed; {
+			changed = false
+			for _, f := range fns {
+				ast.Inspect(f.fd.Body, func(n ast.Node) bool {
+					c, ok := n.(*ast.CallExpr)
+					if !ok {
+						return true
+					}
+					id, ok := c.Fun.(*ast.Ident)
+					if !ok {
+						return true
+					}
+					callee := fns[core.ObjOf(info, id)]
+					if callee == nil {
+						return true
+					}
+					for i, a := range c.Args {
+						if i >= len(callee.params) || callee.params[i] == nil {
+							continue
+						}
+						if aid, ok := ast.Unparen(a).(*ast.Ident); ok && owned[core.ObjOf(info, aid)] && !owned[callee.params[i]] {
+							owned[callee.params[i]] = true
+							changed = true
+						}
+					}
+					return true
+				})
+			}
+		}
 		for _, file := range pkg.Syntax {
 			if !scope.InFile(file.Pos()) {
 				continue
@@ -47,7 +113,9 @@ func RunCallbackCopy(conf core.Config, scope core.Scope) *core.Result {
 						case *types.Signature:
 							funcParams[o] = true
 						case *types.Slice:
-							sliceParams[o] = true
+							if owned[o] {
+								sliceParams[o] = true
+							}
 						}
 					}
 				}
